@@ -225,7 +225,12 @@ func (e *Engine) Solve(rep *FuncReport, scratch string) {
 	sem := make(chan struct{}, 4)
 	raced := 0
 	for i, ob := range rep.Obligations {
-		if ob.Status == "discharged" {
+		if ob.Status == "discharged" || ob.Status == "skipped" {
+			continue
+		}
+		if e.SkipRace[ob.Name] {
+			ob.Status = "undischarged"
+			ob.Output = "recorded known finding: left open by the batch run, not raced individually"
 			continue
 		}
 		raced++
